@@ -23,6 +23,7 @@ import os
 import random
 from pathlib import Path
 
+import c06_shadow as shadow
 import c06_splat as splat
 import c06_universe as u6
 import c15_universe as uni
@@ -1105,6 +1106,58 @@ def run(tier: str, replay: str | None = None):
                 impl[key2] = (sig2, mc, r, enc, case_in)
                 terms.append(f"check_call atom_ops rrs_limit (SU [A_litNone]) {coq_sig(sig2)} {coq_call(sig2, mc)}")
                 meta.append(key2)
+    # ---- stream 3: string / postponed annotations naming module-level classes and aliases (shadowing builtins) ----
+    hist["shadow"] = {"modules": 0, "calls": 0, "must_diagnose": 0, "must_accept": 0, "executed": 0, "shadowing_params": 0}
+    shadow_mods = []
+    if replay:
+        if "shadow" in c:
+            shadow_mods.append(c["shadow"])
+    else:
+        for cc in corpus:
+            if "shadow" in cc:
+                shadow_mods.append(cc["shadow"])
+        for k in range(8 if tier == "quick" else 80):
+            shadow_mods.append(shadow.gen_module(rng, 500 + k))
+    for m in shadow_mods:
+        try:
+            src3, cases3, _ = shadow.render(m)
+            res3, mod3, other3 = run_module(src3)
+        except Exception as ex:
+            rep.harness_error(f"shadow module {m['id']} failed: {ex!r}")
+            continue
+        hist["shadow"]["modules"] += 1
+        hist["stray_errors"] += len(other3)
+        fby = {f["id"]: f for f in m["funcs"]}
+        for name, (call3, text3) in cases3.items():
+            f3 = fby[call3["f"]]
+            r = res3[name]
+            hist["calls"] += 1
+            hist["shadow"]["calls"] += 1
+            diagnosed3 = bool(r["codes"])
+            hist["diagnosed" if diagnosed3 else "accepted"] += 1
+            try:
+                must3, bad3 = shadow.oracle(mod3, f3, call3)
+            except Exception as ex:
+                rep.harness_error(f"shadow oracle failed on {text3}: {ex!r}")
+                continue
+            hist["shadow"]["must_diagnose" if must3 else "must_accept"] += 1
+            hist["shadow"]["shadowing_params"] += sum(1 for p in f3["params"] if p["type"] in m["shadow_classes"] or p["type"] in m["shadow_aliases"])
+            case_in = {"shadow": dict(m, calls=[call3], funcs=[f3]), "source": text3,
+                       "def": f"{f3['flavor']} ({', '.join(p['name'] + ': ' + p['type'] for p in f3['params'])}) -> {f3['ret']}; style={m['style']}; "
+                              f"module defines classes {m['shadow_classes']} and aliases {m['shadow_aliases']}"}
+            seen.add(json.dumps([m["style"], m["shadow_classes"], m["shadow_aliases"], f3, call3], sort_keys=True))
+            if must3 != diagnosed3:
+                oracle_fail.append((case_in, {"what": ("an argument is not an instance of the type typing.get_type_hints gives for its parameter, but the call is accepted" if must3
+                                                       else "every argument is an instance of the type typing.get_type_hints gives for its parameter, but the call is diagnosed"),
+                                              "non_members": bad3, "impl_codes": r["codes"], "impl_descr": r["descr"]}))
+            elif not diagnosed3:
+                try:
+                    result = getattr(mod3, name)()
+                    hist["shadow"]["executed"] += 1
+                    if r["inferred"] is not None and f3["flavor"] != "init" and not value_contains(r["inferred"], result, fallback):
+                        oracle_fail.append((case_in, {"what": "runtime result not in the inferred type", "result": repr(result)[:60], "inferred": str(r["inferred"])}))
+                except Exception as ex:
+                    oracle_fail.append((case_in, {"what": "accepted call raises when executed", "exception": repr(ex)[:200]}))
     hist["result_fallback_can_assign"] = fallback[0]
 
     model_ok = proof is not None and not any("build failed" in b for b in proof.broken)
